@@ -295,13 +295,17 @@ func (m msgServer) Acknowledgement(
 		)
 	}
 
-	// Perform application logic callback
-	_, err := cbs.OnAcknowledgementPacket(ctx, msg.Packet, msg.Acknowledgement)
-	if err != nil {
-		return nil, errorsmod.Wrap(
-			err,
-			"acknowledge packet callback failed",
-		)
+	// Perform application logic callback only on the source chain: a relay chain
+	// merely passes the acknowledgement on and must not run application logic
+	// (e.g. refunds) for traffic passing through.
+	if msg.Packet.GetSourceChain() == m.k.ClientKeeper.GetChainName(ctx) {
+		_, err := cbs.OnAcknowledgementPacket(ctx, msg.Packet, msg.Acknowledgement)
+		if err != nil {
+			return nil, errorsmod.Wrap(
+				err,
+				"acknowledge packet callback failed",
+			)
+		}
 	}
 
 	defer func() {
